@@ -32,12 +32,14 @@ def _setup():
     return _G
 
 
-def _lib(n, lnprior=True):
+def _lib(n, lnprior=True, svar=0):
+    """svar=1: a non-zero jitter column stored in m/s (the data are in km/s), so that a path that forgets to convert it shows"""
     from .. import fixture
     g = _setup()
-    if (n, lnprior) not in g["libs"]:
-        g["libs"][(n, lnprior)] = fixture.Library(n, seed=n, lnprior=lnprior)
-    return g["libs"][(n, lnprior)]
+    if (n, lnprior, svar) not in g["libs"]:
+        g["libs"][(n, lnprior, svar)] = (fixture.Library(n, seed=n, lnprior=lnprior) if not svar else
+                                         fixture.Library(n, seed=n, lnprior=lnprior, s_unit="m/s", s_value=2500.0))
+    return g["libs"][(n, lnprior, svar)]
 
 
 def run_replay_case(case):
@@ -69,7 +71,7 @@ def run_replay_case(case):
 def run_random_case(case):
     from .. import sampler_driver as sd
     g = _setup()
-    lib = _lib(case["n"])
+    lib = _lib(case["n"], svar=case.get("svar", 0))
     wd = os.path.join(case["workdir"], case["id"])
     os.makedirs(wd, exist_ok=True)
     s = sd.Session(lib, g["data"], g["prior"], seed=case["seed"], pool=case["pool"], pool_size=case["pool_size"],
@@ -124,7 +126,7 @@ def random_cases(ctx, rnd, count, maxn):
                               randomize=rnd.random() < 0.4, logprobs=rnd.random() < 0.5, all=rnd.random() < 0.5,
                               nbatches=rnd.choice([0, 0, 1, 2, 3, n, n + 2])))
         case = {"id": "rnd-%d" % j, "n": n, "seed": rnd.randint(0, 10**6), "pool": rnd.choice(["rec", "rec", "serial"]),
-                "pool_size": rnd.choice([1, 2, 3, 5]), "calls": calls, "workdir": ctx.workdir}
+                "pool_size": rnd.choice([1, 2, 3, 5]), "calls": calls, "workdir": ctx.workdir, "svar": int(j % 3 == 1)}
         if rnd.random() < 0.35:   # sprinkle scripted edge uniforms and -inf likelihoods on natural profiles
             case["ucls"] = {rnd.randint(1, n): rnd.choice(["zero", "below", "equal", "above", "hi"]) for _ in range(min(n, 4))}
         if rnd.random() < 0.25 and n > 1:
